@@ -68,4 +68,203 @@ example :
       [.wrote (.publish { qos := 0, topic := [97], payload := [] })] := by
   decide
 
+/-! ## (c) completions: exactly once, in FIFO order, never early, no later than permitted
+
+The four identified ack queues of the client (`Kind`: QoS 1 publishes, QoS 2
+publishes, subscribes, unsubscribes; `queue k c`) are FIFO lists.
+`accepted k c evs` are the requests the history `evs` puts in flight in queue
+`k` (a registration under an identifier that is already in flight there is
+ignored by `Wait`), `released k c evs` the requests handed back to their
+completion wrappers, `fired k c evs` the tags of the completion callbacks the
+model actually invokes while it processes terminal acknowledgements of kind
+`k`; `key` is everything that is fixed when a request is registered
+(identifier, completion tag, message, filters, message callback). -/
+
+/-- **Conservation, every history** (the ack-before-registration interleaving
+included): what was handed back so far followed by what is still in flight is
+what was in flight initially followed by what was accepted, in order.  So no
+request is handed back twice, none is invented, and requests are handed back
+in registration order. -/
+theorem C12_queue_conservation (k : Kind) (c : C) (evs : List Ev) :
+    (released k c evs ++ queue k (runState c evs)).map key = (queue k c ++ accepted k c evs).map key :=
+  run_conservation k c evs
+
+/-- **C12, exactly-once FIFO completion.**  For every state of a connected
+client and every history of API calls and packets from the peer without the
+ack-before-registration interleaving, in which every acknowledged request
+carries an identifier supplied by the caller that is non-zero and not in
+flight in its queue (`Fresh`): the completion tags fired for kind `k`, followed
+by the tags of the requests still in queue `k`, are the tags that were in the
+queue initially followed by the tags of the requests of kind `k` the caller
+made, in call order (tag 0 = no callback).  Hence every completion callback
+fires at most once, in the order of the calls, and none fires that was not
+requested. -/
+theorem C12_exactly_once_fifo (k : Kind) (c : C) (evs : List Ev) (hc : c.connected = true)
+    (he : noEarly evs = true) (hf : Fresh c evs = true) :
+    fired k c evs ++ nz ((queue k (runState c evs)).map (·.tag)) =
+      nz ((queue k c).map (·.tag)) ++ nz (requestedTags k evs) := by
+  rw [run_conservation_tags k c evs he, accepted_fresh k c evs hc he hf]
+
+/-- **When a completion fires** (never early, no later than permitted).  While a
+connected client processes the terminal acknowledgement of kind `k` bearing
+identifier `id`, it fires exactly the completions of the longest prefix of
+queue `k` in which every request either had received its own terminal
+acknowledgement before or is the request acknowledged now - in order, each
+once.  Nothing else fires in that step. -/
+theorem C12_completion_timing (k : Kind) (c : C) (hc : c.connected = true) (p : Packet) (id : Nat)
+    (h : termId k p = some id) :
+    doneTags (step c (.peer p)).2 =
+      nz (((queue k c).takeWhile (fun e => terminal e.state || e.id == id)).map (·.tag)) :=
+  peer_doneTags_char k c hc p id h
+
+/-- … in particular, no later than permitted: a request whose predecessors in
+its queue are all terminal (or acknowledged by this very packet) and which is
+itself terminal or acknowledged now, completes in this step, after its
+predecessors. -/
+theorem C12_completion_no_later (k : Kind) (c : C) (hc : c.connected = true) (p : Packet) (id : Nat)
+    (h : termId k p = some id) (pre post : List Req) (r : Req) (hq : queue k c = pre ++ r :: post)
+    (hpre : ∀ e ∈ pre, terminal e.state = true ∨ e.id = id) (hr : terminal r.state = true ∨ r.id = id) :
+    ∃ rest, doneTags (step c (.peer p)).2 = nz (pre.map (·.tag)) ++ nz [r.tag] ++ rest :=
+  peer_fires_no_later k c hc p id h pre post r hq hpre hr
+
+/-- … and never early: in every step of every history (early acknowledgements
+included) a request is in a terminal state only if it was so before the step
+or the step delivers the terminal acknowledgement of its kind bearing its own
+identifier; requests are registered non-terminal.  Together with
+`C12_completion_timing` (only terminal requests and the one acknowledged now
+are completed): no completion before the request's own terminal
+acknowledgement has arrived. -/
+theorem C12_terminal_only_by_own_ack (k : Kind) (c : C) (ev : Ev) (r : Req)
+    (hr : r ∈ queue k (step c ev).1) (ht : terminal r.state = true) :
+    (∃ r0 ∈ queue k c, key r0 = key r ∧ r0.state = r.state) ∨ evAck k ev = some r.id :=
+  step_terminal_origin k c ev r hr ht
+
+/-- Eagerness: in every state reached from a fresh client by any history the
+oldest request of every queue is not terminal - a completion is never held
+back once it is permitted. -/
+theorem C12_release_eager (evs : List Ev) (k : Kind) (e : Req)
+    (h : (queue k (runState init evs)).head? = some e) : terminal e.state = false :=
+  eager_run init evs eager_init k e h
+
+/-- the tables the model takes from the regenerated facts are the protocol's:
+PUBACK, PUBCOMP, SUBACK, UNSUBACK (and PUBREL for the receiving side) end an
+exchange, PUBREC and "nothing yet" do not -/
+theorem C12_terminal_states :
+    terminal 4 = true ∧ terminal 7 = true ∧ terminal 9 = true ∧ terminal 11 = true ∧ terminal 6 = true ∧
+    terminal 5 = false ∧ terminal 0 = false := by decide
+
+/-- a history with out-of-order acknowledgements: three QoS 1 publishes (the third without a
+callback), a subscribe, a QoS 2 publish; PUBACK 2 arrives first and is held back, PUBACK 1
+releases both -/
+def demoC : List Ev :=
+  [.connect (.connack false 0),
+   .api (.publish { qos := 1, topic := [97], pktid := 1, payload := [1] } 11),
+   .api (.publish { qos := 1, topic := [97, 47, 98], pktid := 2, payload := [2] } 12),
+   .api (.publish { qos := 1, topic := [98], pktid := 3, payload := [] } 0),
+   .api (.subscribe 4 [([97, 47, 43], 1), ([98], 0)] 15 9),
+   .api (.publish { qos := 2, topic := [98], pktid := 5, payload := [7] } 16),
+   .peer (.puback 2),
+   .peer (.pubrec 5),
+   .peer (.puback 1),
+   .peer (.suback 4 [1, 0]),
+   .api (.publish { qos := 1, topic := [97], pktid := 1, payload := [3] } 17),
+   .peer (.pubcomp 5)]
+
+example :
+    (step init (.connect (.connack false 0))).1.connected = true ∧
+    noEarly demoC.tail = true ∧ Fresh (step init (.connect (.connack false 0))).1 demoC.tail = true ∧
+    runOuts init demoC =
+      [[.connected],
+       [.wrote (.publish { qos := 1, topic := [97], pktid := 1, payload := [1] })],
+       [.wrote (.publish { qos := 1, topic := [97, 47, 98], pktid := 2, payload := [2] })],
+       [.wrote (.publish { qos := 1, topic := [98], pktid := 3, payload := [] })],
+       [.wrote (.subscribe 4 [([97, 47, 43], 1), ([98], 0)])],
+       [.wrote (.publish { qos := 2, topic := [98], pktid := 5, payload := [7] })],
+       [],
+       [.wrote (.pubrel 5)],
+       [.complete 11 false, .complete 12 false],
+       [.complete 15 false],
+       [.wrote (.publish { qos := 1, topic := [97], pktid := 1, payload := [3] })],
+       [.complete 16 false]] ∧
+    fired .pub1 init demoC = [11, 12] ∧ fired .sub init demoC = [15] ∧ fired .pub2 init demoC = [16] ∧
+    requestedTags .pub1 demoC = [11, 12, 0, 17] ∧
+    (queue .pub1 (runState init demoC)).map (fun r => (r.id, r.tag, r.state)) = [(3, 0, 0), (1, 17, 0)] := by
+  decide
+
+/-! ### the ping slot -/
+
+/-- **Pings, the part that holds**: in a history without early acknowledgements
+in which `Ping` is called only when no earlier ping is outstanding (`PingOk`),
+the ping completions fired, followed by the tag in the slot, are the tag
+initially in the slot followed by the tags of the `Ping` calls, in order. -/
+theorem C12_ping_exactly_once_partial (c : C) (evs : List Ev) (hc : c.connected = true)
+    (he : noEarly evs = true) (hp : PingOk c evs = true) :
+    pingFired c evs ++ nz (slotTags (runState c evs)) = nz (slotTags c) ++ nz (pingRequested evs) :=
+  run_ping_conservation c evs hc he hp
+
+/-- the statement without the restriction -/
+def C12_ping_exactly_once_full : Prop :=
+  ∀ (c : C) (evs : List Ev), c.connected = true → noEarly evs = true →
+    pingFired c evs ++ nz (slotTags (runState c evs)) = nz (slotTags c) ++ nz (pingRequested evs)
+
+/-- It is false of the code as it is (the single ping slot): a second `Ping`
+before the first PINGRESP overwrites the slot; of the two PINGRESPs that follow
+the first completes the *second* call and the second completes nothing - the
+completion of the first call is lost. -/
+theorem C12_ping_slot_counterexample : ¬ C12_ping_exactly_once_full ∧
+    runOuts demoA [.api (.ping 1), .api (.ping 2), .peer .pingresp, .peer .pingresp] =
+      [[.wrote .pingreq], [.wrote .pingreq], [.complete 2 false], []] := by
+  refine ⟨fun h => ?_, by decide⟩
+  have := h demoA [.api (.ping 1), .api (.ping 2), .peer .pingresp, .peer .pingresp] (by decide) (by decide)
+  exact absurd this (by decide)
+
+example : PingOk demoA [.api (.ping 1), .peer .pingresp, .api (.ping 2), .peer .pingreq, .peer .pingresp] = true ∧
+    runOuts demoA [.api (.ping 1), .peer .pingresp, .api (.ping 2), .peer .pingreq, .peer .pingresp] =
+      [[.wrote .pingreq], [.complete 1 false], [.wrote .pingreq], [.wrote .pingresp], [.complete 2 false]] := by
+  decide
+
+/-! ### the two interleavings of acknowledgement and return of the call -/
+
+/-- "This holds however the arrival of the acknowledgement interleaves with the
+return of the sending call": a request with a caller-supplied identifier and a
+completion callback, made while its queue is empty, completes when its terminal
+acknowledgement has been processed - whether the acknowledgement is processed
+after the call returned (`.api` then `.peer`) or between the write and the
+registration (`.apiEarlyAck`). -/
+def C12_completes_on_ack_full : Prop :=
+  ∀ (c : C) (call : Api) (k : Kind) (id tag : Nat) (ack : Packet),
+    c.connected = true → callReq call = some (k, id, tag) → id ≠ 0 → tag ≠ 0 → queue k c = [] →
+    termId k ack = some id →
+    doneTags (step (step c (.api call)).1 (.peer ack)).2 = [tag] ∧
+    doneTags (step c (.apiEarlyAck call ack)).2 = [tag]
+
+/-- The first interleaving holds. -/
+theorem C12_completes_on_ack_partial (c : C) (call : Api) (k : Kind) (id tag : Nat) (ack : Packet)
+    (hc : c.connected = true) (hreq : callReq call = some (k, id, tag)) (hid : id ≠ 0) (htag : tag ≠ 0)
+    (hq : queue k c = []) (ht : termId k ack = some id) :
+    doneTags (step (step c (.api call)).1 (.peer ack)).2 = [tag] := by
+  rw [completes_after_return c call k id tag ack hc hreq hid hq ht]
+  simp [nz, htag]
+
+/-- The second does not (finding E5): the acknowledgement processed between
+`writeMessage` and `Wait` finds no entry and is dropped; the request is
+registered afterwards and stays in its queue, non-terminal, and its completion
+never fires although its acknowledgement has arrived. -/
+theorem C12_early_ack_counterexample : ¬ C12_completes_on_ack_full ∧
+    (let ev := Ev.apiEarlyAck (.publish { qos := 1, topic := [97], pktid := 2, payload := [1] } 4) (.puback 2)
+     (step demoA ev).2 = [.wrote (.publish { qos := 1, topic := [97], pktid := 2, payload := [1] })] ∧
+     (queue .pub1 (step demoA ev).1).map (fun r => (r.id, r.tag, r.state)) = [(9, 3, 0), (2, 4, 0)]) := by
+  refine ⟨fun h => ?_, by decide⟩
+  have := (h (step init (.connect (.connack false 0))).1
+    (.publish { qos := 1, topic := [97], pktid := 2, payload := [1] } 4) .pub1 2 4 (.puback 2)
+    (by decide) (by decide) (by decide) (by decide) (by decide) (by decide)).2
+  exact absurd this (by decide)
+
+example :
+    let c := (step init (.connect (.connack false 0))).1
+    let call := Api.subscribe 7 [([97, 47, 35], 2)] 21 3
+    callReq call = some (.sub, 7, 21) ∧ termId .sub (.suback 7 [2]) = some 7 ∧
+      doneTags (step (step c (.api call)).1 (.peer (.suback 7 [2]))).2 = [21] := by
+  decide
+
 end Mqtt.Properties.C12
